@@ -48,6 +48,11 @@ def nle(kind):
     return {'from_': 'hS.1.ho', 'to': 'hS.1.ho', 'callid': 'hS.hi', 'cseq': 'hS.2.1', 'clen': 'hS.2.2', 'expires': 'hS.hi',
             'contacts': 'hS.2.2.2', 'pais': 'hS.2.2.2'}[kind]
 
+def relv(kind):
+    return {'from_': 'hS.1.v', 'to': 'hS.1.v', 'callid': 'hS.fld', 'cseq': '(hS.2.2 (by intro hh; cases hh)).v',
+            'clen': '(hS.2.1 (by intro hh; cases hh)).fld', 'expires': 'hS.fld',
+            'contacts': '(hS.2.2.1 rfl).2.2.lhv', 'pais': '(hS.2.2.1 rfl).2.2.lhv'}[kind]
+
 def okr(kind, hdr):
     if kind in ('from_', 'to'):
         t = f'(naPVal_ok_range {hdr} b o hv.{kind} ho hq (Or.inl rfl))'
@@ -65,12 +70,13 @@ def gen_parseBody():
     the values object is legitimate at the returned offset -/
 theorem parseBody_safe (b : Buf) (o : Nat) (h : Hdr) (hv : PHdrVals) (hst : h.state = .bodyStart) (ho : o ≤ b.size)
     (hfit : b.size ≤ 65535) (hok : hvOK b o hv) (H : HvSafe b o .bodyStart hv) (hpnc : h.pnc = false)
-    (hval : h.val.inside b.size) {n : Nat} {e : Err} {h2 : Hdr} {hb2 : Option PHdrVals}
+    (hval : h.val.inside b.size) (hvalI : h.val.inside o) {n : Nat} {e : Err} {h2 : Hdr} {hb2 : Option PHdrVals}
     (hr : parseBody b o h (some hv) = (n, e, h2, hb2)) :
     ∃ hv2, hb2 = some hv2 ∧ HvFine b hv2 ∧ h2.pnc = false ∧ h2.name = h.name ∧ h2.val.inside b.size ∧
       (h2.state = .bodyStart → n = o ∧ e = .ok ∧ h2 = h ∧ hv2 = hv) ∧ (h2.state = .bodyStart ∨ h2.state.isVal) ∧
       ((e = .ok ∨ e = .moreBytes) → o ≤ n ∧ n ≤ b.size) ∧
-      (e = .ok → HvSafe b n .fin hv2) ∧ (e = .moreBytes → HvSafe b n h2.state hv2) ∧ n ≤ b.size := by
+      (e = .ok → HvSafe b n .fin hv2) ∧ (e = .moreBytes → HvSafe b n h2.state hv2) ∧ n ≤ b.size ∧
+      ((e = .ok ∨ e = .moreBytes) → h2.val.inside n) := by
   have hrange : (e = .ok ∨ e = .moreBytes) → o ≤ n ∧ n ≤ b.size := by
     intro he
     rcases he with rfl | rfl
@@ -83,12 +89,13 @@ theorem parseBody_safe (b : Buf) (o : Nat) (h : Hdr) (hv : PHdrVals) (hst : h.st
       ∃ hv2, hb2 = some hv2 ∧ HvFine b hv2 ∧ h2.pnc = false ∧ h2.name = h.name ∧ h2.val.inside b.size ∧
       (h2.state = .bodyStart → n = o ∧ e = .ok ∧ h2 = h ∧ hv2 = hv) ∧ (h2.state = .bodyStart ∨ h2.state.isVal) ∧
       ((e = .ok ∨ e = .moreBytes) → o ≤ n ∧ n ≤ b.size) ∧
-      (e = .ok → HvSafe b n .fin hv2) ∧ (e = .moreBytes → HvSafe b n h2.state hv2) ∧ n ≤ b.size := by
+      (e = .ok → HvSafe b n .fin hv2) ∧ (e = .moreBytes → HvSafe b n h2.state hv2) ∧ n ≤ b.size ∧
+      ((e = .ok ∨ e = .moreBytes) → h2.val.inside n) := by
     intro n e h2 hb2 hh
     simp only [Prod.mk.injEq] at hh
     obtain ⟨rfl, rfl, rfl, rfl⟩ := hh
     exact ⟨hv, rfl, HF, hpnc, rfl, hval, fun _ => ⟨rfl, rfl, rfl, rfl⟩, Or.inl hst, fun _ => ⟨Nat.le_refl _, ho⟩,
-      fun _ => H.restate hn1 hn2 (by decide) (by decide), (fun hh => by cases hh), ho⟩
+      fun _ => H.restate hn1 hn2 (by decide) (by decide), (fun hh => by cases hh), ho, fun _ => hvalI⟩
   unfold parseBody parseFromVal at hr
   simp only at hr''')
     for (kind, hdr, call, st, vf) in kinds:
@@ -102,7 +109,7 @@ theorem parseBody_safe (b : Buf) (o : Nat) (h : Hdr) (hv : PHdrVals) (hst : h.st
             A(f'      rw [hq] at hr; simp only [Prod.mk.injEq] at hr')
             A(f'      obtain ⟨rfl, rfl, rfl, rfl⟩ := hr')
             for l in lines: A('      ' + l)
-            A(f'      refine ⟨_, rfl, {mkfine(kind, fineP)}, hpnc, rfl, ?_, (fun hh => by cases hh), Or.inr (by unfold HState.isVal; simp), hrange, ?_, ?_, {nle(kind)}⟩')
+            A(f'      refine ⟨_, rfl, {mkfine(kind, fineP)}, hpnc, rfl, ?_, (fun hh => by cases hh), Or.inr (by unfold HState.isVal; simp), hrange, ?_, ?_, {nle(kind)}, ?_⟩')
             A(f'      · show (if (e1 == Err.ok) = true then f1.{vf} else h.val).inside b.size')
             A(f'        split')
             A(f'        · exact {valP}')
@@ -116,6 +123,12 @@ theorem parseBody_safe (b : Buf) (o : Nat) (h : Hdr) (hv : PHdrVals) (hst : h.st
             A(f'        have Hm := H.mono r1 r2')
             A(f'        show HvSafe b n1 HState.{st} _')
             A(f'        exact {mk(kind, moreP)}')
+            A(f'      · intro he')
+            A(f'        rcases he with rfl | rfl')
+            A(f'        · show f1.{vf}.inside n1')
+            A(f'          exact {relv(kind)}')
+            A(f'        · show h.val.inside n1')
+            A(f'          exact PField.inside_mono hvalI (hrange (Or.inr rfl)).1')
             A(f'    · simp only [hp, Bool.false_eq_true, ↓reduceIte] at hr')
             A(f'      exact hskip hr')
         else:
@@ -128,7 +141,7 @@ theorem parseBody_safe (b : Buf) (o : Nat) (h : Hdr) (hv : PHdrVals) (hst : h.st
             A(f'    rcases hq : {fn} b o {{ hv.{kind} with hNo := hv.{kind}.hNo + 1, lastHVal := {{}} }} with ⟨n1, e1, f1⟩')
             A(f'    rw [hq] at hr hS; simp only [Prod.mk.injEq] at hr')
             A(f'    obtain ⟨rfl, rfl, rfl, rfl⟩ := hr')
-            A(f'    refine ⟨_, rfl, {mkfine(kind, "hS.1")}, hpnc, rfl, ?_, (fun hh => by cases hh), Or.inr (by unfold HState.isVal; simp), hrange, ?_, ?_, {nle(kind)}⟩')
+            A(f'    refine ⟨_, rfl, {mkfine(kind, "hS.1")}, hpnc, rfl, ?_, (fun hh => by cases hh), Or.inr (by unfold HState.isVal; simp), hrange, ?_, ?_, {nle(kind)}, ?_⟩')
             A(f'    · show (if (e1 == Err.ok) = true then f1.lastHVal else h.val).inside b.size')
             A(f'      split')
             A(f'      · exact hS.1.lhv')
@@ -145,6 +158,12 @@ theorem parseBody_safe (b : Buf) (o : Nat) (h : Hdr) (hv : PHdrVals) (hst : h.st
                 inn = '(hS.2.2.1 rfl).2.2' if case == 'ok' else '(hS.2.1 rfl).inn'
                 if isct: A(f'      exact {mk(None, None, ct=lst, ctin=inn)}')
                 else: A(f'      exact {mk(None, None, pa=lst, pain=inn)}')
+            A(f'    · intro he')
+            A(f'      rcases he with rfl | rfl')
+            A(f'      · show f1.lastHVal.inside n1')
+            A(f'        exact {relv(kind)}')
+            A(f'      · show h.val.inside n1')
+            A(f'        exact PField.inside_mono hvalI (hrange (Or.inr rfl)).1')
         A(f'  simp only [h_{kind}, Bool.false_eq_true, ↓reduceIte] at hr')
     A('  exact hskip hr')
     return '\n'.join(L)
@@ -155,12 +174,14 @@ def gen_hlCont():
     A('''/-- **continuing a suspended header-specific value parser never panics** -/
 theorem hlCont_safe (b : Buf) (o : Nat) (h : Hdr) (hv : PHdrVals) (ho : o ≤ b.size) (hfit : b.size ≤ 65535)
     (hok : hvOK b o hv) (H : HvSafe b o h.state hv) (hisv : h.state.isVal) (hpnc : h.pnc = false)
-    (hname : h.name.inside b.size) (hval : h.val.inside b.size) {n : Nat} {e : Err} {st' : HLσ}
+    (hname : h.name.inside b.size) (hval : h.val.inside b.size) (hvalI : h.val.inside o) {n : Nat} {e : Err}
+    {st' : HLσ}
     (hs : hlCont b o h (some hv) = .done n e st') :
     ∃ hv2, st'.2 = some hv2 ∧ HvFine b hv2 ∧ st'.1.pnc = false ∧ st'.1.name = h.name ∧ st'.1.val.inside b.size ∧
       ((e = .ok ∨ e = .moreBytes) → o ≤ n ∧ n ≤ b.size) ∧
       (e = .ok → st'.1.state = .fin ∧ HvSafe b n .fin hv2) ∧
-      (e = .moreBytes → st'.1.state = h.state ∧ HvSafe b n h.state hv2) ∧ n ≤ b.size := by
+      (e = .moreBytes → st'.1.state = h.state ∧ HvSafe b n h.state hv2) ∧ n ≤ b.size ∧
+      ((e = .ok ∨ e = .moreBytes) → st'.1.val.inside n) := by
   have hmore : e = .moreBytes → o ≤ n ∧ n ≤ b.size := by
     intro he
     subst he
@@ -183,7 +204,7 @@ theorem hlCont_safe (b : Buf) (o : Nat) (h : Hdr) (hv : PHdrVals) (ho : o ≤ b.
             A(f'    have hrange : (e1 = .ok ∨ e1 = .moreBytes) → o ≤ n1 ∧ n1 ≤ b.size :=')
             A(f'      fun he => he.elim (fun he => by subst he; exact {okr(kind, hdr)}) hmore')
             for l in lines: A('    ' + l)
-            A(f'    refine ⟨_, rfl, {mkfine(kind, fineP)}, ?_, ?_, ?_, hrange, ?_, ?_, {nle(kind)}⟩')
+            A(f'    refine ⟨_, rfl, {mkfine(kind, fineP)}, ?_, ?_, ?_, hrange, ?_, ?_, {nle(kind)}, ?_⟩')
             A(f'    · show (if (e1 == Err.ok) = true then {{ h with val := f1.{vf}, state := HState.fin }} else h).pnc = false')
             A(f'      split <;> exact hpnc')
             A(f'    · show (if (e1 == Err.ok) = true then {{ h with val := f1.{vf}, state := HState.fin }} else h).name = h.name')
@@ -200,6 +221,12 @@ theorem hlCont_safe (b : Buf) (o : Nat) (h : Hdr) (hv : PHdrVals) (ho : o ≤ b.
             A(f'      obtain ⟨r1, r2⟩ := hrange (Or.inr rfl)')
             A(f'      have Hm := H.mono r1 r2')
             A(f'      exact ⟨(by show h.state = _; exact hst), {mk(kind, moreP)}⟩')
+            A(f'    · intro he')
+            A(f'      rcases he with rfl | rfl')
+            A(f'      · show f1.{vf}.inside n1')
+            A(f'        exact {relv(kind)}')
+            A(f'      · show h.val.inside n1')
+            A(f'        exact PField.inside_mono hvalI (hrange (Or.inr rfl)).1')
         else:
             isct = kind == 'contacts'
             fn = 'parseAllContactValues' if isct else 'parseAllPAIValues'
@@ -209,7 +236,7 @@ theorem hlCont_safe (b : Buf) (o : Nat) (h : Hdr) (hv : PHdrVals) (ho : o ≤ b.
             A(f'    obtain ⟨rfl, rfl, rfl⟩ := hs')
             A(f'    have hrange : (e1 = .ok ∨ e1 = .moreBytes) → o ≤ n1 ∧ n1 ≤ b.size :=')
             A(f'      fun he => he.elim (fun he => by subst he; exact {okr(kind, hdr)}) hmore')
-            A(f'    refine ⟨_, rfl, {mkfine(kind, "hS.1")}, ?_, ?_, ?_, hrange, ?_, ?_, {nle(kind)}⟩')
+            A(f'    refine ⟨_, rfl, {mkfine(kind, "hS.1")}, ?_, ?_, ?_, hrange, ?_, ?_, {nle(kind)}, ?_⟩')
             A(f'    · show (if (e1 == Err.ok) = true then {{ h with val := f1.lastHVal, state := HState.fin }} else h).pnc = false')
             A(f'      split <;> exact hpnc')
             A(f'    · show (if (e1 == Err.ok) = true then {{ h with val := f1.lastHVal, state := HState.fin }} else h).name = h.name')
@@ -231,6 +258,12 @@ theorem hlCont_safe (b : Buf) (o : Nat) (h : Hdr) (hv : PHdrVals) (ho : o ≤ b.
                 inn = '(hS.2.2.1 rfl).2.2' if case == 'ok' else '(hS.2.1 rfl).inn'
                 if isct: A(f'      exact ⟨{first}, {mk(None, None, ct=lst, ctin=inn)}⟩')
                 else: A(f'      exact ⟨{first}, {mk(None, None, pa=lst, pain=inn)}⟩')
+            A(f'    · intro he')
+            A(f'      rcases he with rfl | rfl')
+            A(f'      · show f1.lastHVal.inside n1')
+            A(f'        exact {relv(kind)}')
+            A(f'      · show h.val.inside n1')
+            A(f'        exact PField.inside_mono hvalI (hrange (Or.inr rfl)).1')
     return '\n'.join(L)
 
 if __name__ == '__main__':
